@@ -44,16 +44,19 @@ extern "C" void harness_names(void) {
 #ifdef ONLYFN
   unsigned fn = ONLYFN;          // (used to run one recogniser against a pre-fix tree)
 #else
-  unsigned fn = nondet_u8() % 4;
+  unsigned fn = nondet_u8() % 5;
 #endif
+  // fn 4: the zero-terminated overload isValidName(const XMLCh*), on an exactly sized terminated copy
+  static XMLCh z1[2], z2[3], z3[4]; XMLCh* zp = n == 1 ? z1 : n == 2 ? z2 : z3;
+  if (fn == 4) { for (int i = 0; i < N; i++) if ((XMLSize_t)i < n) VX_ASSUME(u[i] != 0); if (n == 1) { z1[0] = u[0]; z1[1] = 0; } else if (n == 2) { z2[0] = u[0]; z2[1] = u[1]; z2[2] = 0; } else { z3[0] = u[0]; z3[1] = u[1]; z3[2] = u[2]; z3[3] = 0; } }
   bool got, want;
 #if VERSION == 10
-  if (fn == 0) got = XMLChar1_0::isValidNCName(p, n); else if (fn == 1) got = XMLChar1_0::isValidName(p, n); else if (fn == 2) got = XMLChar1_0::isValidQName(p, n); else got = XMLChar1_0::isValidNmtoken(p, n);
+  if (fn == 0) got = XMLChar1_0::isValidNCName(p, n); else if (fn == 1) got = XMLChar1_0::isValidName(p, n); else if (fn == 2) got = XMLChar1_0::isValidQName(p, n); else if (fn == 3) got = XMLChar1_0::isValidNmtoken(p, n); else got = XMLChar1_0::isValidName(zp);
 #else
-  if (fn == 0) got = XMLChar1_1::isValidNCName(p, n); else if (fn == 1) got = XMLChar1_1::isValidName(p, n); else if (fn == 2) got = XMLChar1_1::isValidQName(p, n); else got = XMLChar1_1::isValidNmtoken(p, n);
+  if (fn == 0) got = XMLChar1_1::isValidNCName(p, n); else if (fn == 1) got = XMLChar1_1::isValidName(p, n); else if (fn == 2) got = XMLChar1_1::isValidQName(p, n); else if (fn == 3) got = XMLChar1_1::isValidNmtoken(p, n); else got = XMLChar1_1::isValidName(zp);
 #endif
   if (fn == 0) want = refName(u, 0, n, false);
-  else if (fn == 1) want = refName(u, 0, n, true);
+  else if (fn == 1 || fn == 4) want = refName(u, 0, n, true);
   else if (fn == 3) want = refName(u, 0, n, true, true);
   else {
     XMLSize_t k = 0; while (k < n && k < N && u[k] != 0x3A) k++;
